@@ -12,7 +12,12 @@ import (
 var (
 	ErrInvalidSignature  = errors.New("invalid signature")
 	ErrKeyPeerIdMismatch = errors.New("key peer id doesn't match the signed key and peer")
+	ErrInvalidTimestamp  = errors.New("timestamp is out of range")
 )
+
+// maxTimestampMicro is the largest timestamp the storage keeps exactly: the document stores
+// it as an anyenc number, which is a float64.
+const maxTimestampMicro = int64(1) << 53
 
 type KeyValue struct {
 	KeyPeerId string
@@ -44,6 +49,12 @@ func KeyValueFromProto(proto *spacesyncproto.StoreKeyValue, verify bool) (kv Key
 		return kv, err
 	}
 	kv.TimestampMicro = innerValue.TimestampMicro
+	// Last-writer-wins compares the stored (float64) timestamp with incoming ones: outside this
+	// range distinct timestamps collapse into one stored number (or wrap around), and which value
+	// a store keeps then depends on the arrival order.
+	if kv.TimestampMicro < 0 || kv.TimestampMicro > maxTimestampMicro {
+		return kv, ErrInvalidTimestamp
+	}
 	identity, err := crypto.UnmarshalEd25519PublicKeyProto(innerValue.Identity)
 	if err != nil {
 		return kv, err
